@@ -127,6 +127,14 @@ def regex_match(I, pattern, method, args, node):
 
 def call_lib(I, name, args, kwargs, node):
     a = args
+    if name == "itertools.accumulate":
+        seq = a[0] if a else None
+        if isinstance(seq, (ListLit, TupS)) and all(isinstance(x, Const) and isinstance(x.v, (int, float)) for x in seq.elts) and len(a) == 1 \
+                and set(kwargs) <= {"initial"} and all(isinstance(v, Const) for v in kwargs.values()):
+            import itertools
+            init = kwargs["initial"].v if "initial" in kwargs else None
+            return ListLit([Const(v) for v in itertools.accumulate([x.v for x in seq.elts], initial=init)])
+        return Top("itertools.accumulate of a non-constant sequence", deps=I.leaves(seq) if seq is not None else ())
     if name == "re.compile":
         import re
         if a and isinstance(a[0], Const) and isinstance(a[0].v, str) and all(isinstance(x, Const) for x in list(a[1:]) + list(kwargs.values())):
